@@ -39,85 +39,170 @@ theorem splitIncl_flatten (s : Str) : (splitIncl s).flatten = s := by
       · next h => rw [h] at ih; simp at ih; simp [← ih]
       · next l ls h => rw [h] at ih; simp at ih; simp [← ih]
 
-/-! ## the update keeps names, attribute text, inputs and order — for entries run exactly once -/
+/-! ## the update keeps names, attribute text, inputs and order -/
 
-theorem updateLang_form (e : Entry) (a : Actual) : ∃ o b, updateLang e a = (e.corr o, b) := by
+theorem updateLang_form (fx : Fixes) (e : Entry) (a : Actual) : ∃ o b, updateLang fx e a = (e.corr o, b) := by
   unfold updateLang
   dsimp only
   repeat' split
   all_goals exact ⟨_, _, rfl⟩
 
-theorem updateLang_skey (e : Entry) (a : Actual) : (updateLang e a).1.skey = e.skey := by
-  obtain ⟨o, b, h⟩ := updateLang_form e a
+theorem updateLang_skey (fx : Fixes) (e : Entry) (a : Actual) : (updateLang fx e a).1.skey = e.skey := by
+  obtain ⟨o, b, h⟩ := updateLang_form fx e a
   rw [h]; rfl
 
-theorem updateEntry_runOnce {orc : Oracle} {e : Entry} (h : RunOnce e) :
-    updateEntry orc e = .stop ∨ updateEntry orc e = .err ∨
-      ∃ c, updateEntry orc e = .cont [c] ∧ c.skey = e.skey := by
-  obtain ⟨h1, h2, l, h3⟩ := h
-  unfold updateEntry
-  have : (e.attrs.expect == Expect.skip) = false := by
-    cases hx : e.attrs.expect <;> simp_all
-  simp only [this, h2, h3]
-  simp only [updateLangs]
-  cases orc l e.input with
-  | none => simp
-  | some a =>
-    simp only
-    by_cases hs : (updateLang e a).2 = true
-    · simp [hs]
-    · simp only [hs]
-      right; right
-      exact ⟨(updateLang e a).1, by simp, updateLang_skey e a⟩
+/-- The per-language loop: every correction it returns carries the entry's key; without the
+one-correction repair it adds one per language, with it the result has exactly one element as soon
+as there is a language to run or one was already recorded. -/
+theorem updateLangs_spec (fx : Fixes) (orc : Oracle) (e : Entry) :
+    ∀ (ls : List Str) (acc cs : List Correction), (∀ c ∈ acc, c.skey = e.skey) →
+      updateLangs fx orc e ls acc = .cont cs →
+      (∀ c ∈ cs, c.skey = e.skey) ∧
+      (fx.oneCorrection = false → cs.length = acc.length + ls.length) ∧
+      (fx.oneCorrection = true → acc.length ≤ 1 → (ls ≠ [] ∨ acc.length = 1) → cs.length = 1)
+  | [], acc, cs, hacc, h => by
+    simp only [updateLangs, Step.cont.injEq] at h
+    subst h
+    exact ⟨hacc, by simp, by intro _ h1 h2; simpa using h2⟩
+  | l :: ls, acc, cs, hacc, h => by
+    unfold updateLangs at h
+    cases ho : orc l e.input with
+    | none => simp [ho] at h
+    | some a =>
+      simp only [ho] at h
+      by_cases hs : (updateLang fx e a).2 = true
+      · simp [hs] at h
+      · simp only [hs] at h
+        have hk := updateLang_skey fx e a
+        cases hone : fx.oneCorrection with
+        | false =>
+          simp only [hone] at h
+          have := updateLangs_spec fx orc e ls (acc ++ [(updateLang fx e a).1]) cs
+            (by intro c hc; simp at hc; rcases hc with hc | hc; exact hacc c hc; exact hc ▸ hk) (by simpa using h)
+          refine ⟨this.1, ?_, by simp⟩
+          intro _; have := this.2.1 hone; simp at this ⊢; omega
+        | true =>
+          simp only [hone] at h
+          have hacc' : ∀ c ∈ (acc ++ [(updateLang fx e a).1]).take 1, c.skey = e.skey := by
+            intro c hc
+            have := List.mem_of_mem_take hc
+            simp at this; rcases this with hc | hc; exact hacc c hc; exact hc ▸ hk
+          have := updateLangs_spec fx orc e ls _ cs hacc' (by simpa using h)
+          refine ⟨this.1, by simp, ?_⟩
+          intro _ hle _
+          apply this.2.2 hone
+          · simp <;> omega
+          · right; simp <;> omega
+
+/-- What `run_tests` records for one entry: when it goes on (`cont`), every correction has the
+entry's key; an entry run exactly once gives exactly one; with both repairs EVERY entry with a
+non-empty language list gives exactly one. -/
+theorem updateEntry_spec (fx : Fixes) (orc : Oracle) (e : Entry) (cs : List Correction)
+    (h : updateEntry fx orc e = .cont cs) :
+    (∀ c ∈ cs, c.skey = e.skey) ∧
+    (RunOnce e → cs.length = 1) ∧
+    (fx.keepUnrun = true → fx.oneCorrection = true → e.attrs.languages ≠ [] → cs.length = 1) := by
+  unfold updateEntry at h
+  dsimp only at h
+  by_cases h1 : e.attrs.expect = .skip
+  · simp only [h1, beq_self_eq_true, ↓reduceIte, Step.cont.injEq] at h
+    subst h
+    refine ⟨?_, fun hr => absurd h1 hr.1, ?_⟩
+    · intro c hc; split at hc <;> simp at hc; subst hc; rfl
+    · intro hk _ _; simp [hk]
+  · have : (e.attrs.expect == Expect.skip) = false := by simpa using h1
+    simp only [this] at h
+    by_cases h2 : e.attrs.platform = true
+    · simp only [h2] at h
+      have sp := updateLangs_spec fx orc e e.attrs.languages [] cs (by simp) (by simpa using h)
+      refine ⟨sp.1, ?_, ?_⟩
+      · rintro ⟨_, _, l, hl⟩
+        cases hone : fx.oneCorrection with
+        | false => have := sp.2.1 hone; simp [hl] at this; exact this
+        | true => exact sp.2.2 hone (by simp) (by left; simp [hl])
+      · intro _ hone hne
+        exact sp.2.2 hone (by simp) (Or.inl hne)
+    · have h2' : e.attrs.platform = false := by simpa using h2
+      simp only [h2', Bool.not_false, Bool.false_eq_true, ↓reduceIte, Step.cont.injEq] at h
+      subst h
+      refine ⟨?_, fun hr => absurd hr.2.1 h2, ?_⟩
+      · intro c hc; split at hc <;> simp at hc; subst hc; rfl
+      · intro hk _ _; simp [hk]
+
+theorem skey_of_singleton {cs : List Correction} {k : Str × Str × Str}
+    (h1 : ∀ c ∈ cs, c.skey = k) (h2 : cs.length = 1) : cs.map Correction.skey = [k] := by
+  match cs, h2 with
+  | [c], _ => simp [h1 c (by simp)]
 
 /-- `updateEntries_keys`: when the update run reaches `write_tests`, the corrections it writes carry, in
-order, exactly the (name, attribute text, input) of the entries — provided every entry is run
-exactly once.  All entry lists, all oracles (parsers). -/
-theorem updateEntries_keys (orc : Oracle) :
-    ∀ (es : List Entry) (acc cs : List Correction), (∀ e ∈ es, RunOnce e) →
-      updateEntries orc es acc = some cs →
+order, exactly the (name, attribute text, input) of the entries — provided every entry yields exactly
+one correction.  All entry lists, all oracles (parsers), all repair flags. -/
+theorem updateEntries_keys_of (fx : Fixes) (orc : Oracle) :
+    ∀ (es : List Entry) (acc cs : List Correction),
+      (∀ e ∈ es, ∀ cs', updateEntry fx orc e = .cont cs' → cs'.length = 1) →
+      updateEntries fx orc es acc = some cs →
       cs.map Correction.skey = acc.map Correction.skey ++ es.map Entry.skey
   | [], acc, cs, _, h => by simp [updateEntries] at h; simp [h]
   | e :: es, acc, cs, hp, h => by
     unfold updateEntries at h
-    rcases updateEntry_runOnce (orc := orc) (hp e (by simp)) with h1 | h1 | ⟨c, h1, hk⟩
-    · simp [h1] at h
-    · simp [h1] at h
-    · rw [h1] at h
-      simp only at h
-      have := updateEntries_keys orc es (acc ++ [c]) cs (fun e he => hp e (by simp [he])) h
+    cases hu : updateEntry fx orc e with
+    | stop => simp [hu] at h
+    | err => simp [hu] at h
+    | cont cs' =>
+      simp only [hu] at h
+      have sp := updateEntry_spec fx orc e cs' hu
+      have hk := skey_of_singleton sp.1 (hp e (by simp) cs' hu)
+      have := updateEntries_keys_of fx orc es (acc ++ cs') cs (fun e he => hp e (by simp [he])) h
       simp [this, hk]
 
+/-- Unchanged code (any flags): entries that are run exactly once keep name, attribute text, input, order. -/
+theorem updateEntries_keys (fx : Fixes) (orc : Oracle) (es : List Entry) (cs : List Correction)
+    (hp : ∀ e ∈ es, RunOnce e) (h : updateEntries fx orc es [] = some cs) :
+    cs.map Correction.skey = es.map Entry.skey := by
+  have := updateEntries_keys_of fx orc es [] cs
+    (fun e he cs' hu => (updateEntry_spec fx orc e cs' hu).2.1 (hp e he)) h
+  simpa using this
+
+/-- With the two repairs `keepUnrun` and `oneCorrection`: ALL entries (skipped, other platform, several
+languages) keep name, attribute text, input and order. -/
+theorem updateEntries_keys_fixed (fx : Fixes) (orc : Oracle) (es : List Entry) (cs : List Correction)
+    (hk : fx.keepUnrun = true) (ho : fx.oneCorrection = true)
+    (hl : ∀ e ∈ es, e.attrs.languages ≠ []) (h : updateEntries fx orc es [] = some cs) :
+    cs.map Correction.skey = es.map Entry.skey := by
+  have := updateEntries_keys_of fx orc es [] cs
+    (fun e he cs' hu => (updateEntry_spec fx orc e cs' hu).2.2 hk ho (hl e he)) h
+  simpa using this
+
 /-- Written files read back as what was written (the statement of `parse_write_roundtrip` for one
-list of corrections). -/
-def RoundTrips (os : Str) (cs : List Correction) : Prop :=
-  (parseFile os (writeTests cs)).map Entry.skey = cs.map Correction.skey
+list of corrections and one delimiter suffix). -/
+def RoundTrips (os : Str) (suf : Str) (cs : List Correction) : Prop :=
+  (parseFile os (writeTests suf cs)).map Entry.skey = cs.map Correction.skey
 
 /-
-OPEN (full strength, FALSE for the faithful model — see the three witnesses below):
+OPEN (full strength, FALSE for the faithful model of the unchanged code — see the witnesses below):
 theorem update_preserves (os : Str) (orc : Oracle) (f : Str) :
-    (parseFile os (updateFile os orc f)).map Entry.key = (parseFile os f).map Entry.key
+    (parseFile os (updateFile {} os orc f)).map Entry.key = (parseFile os f).map Entry.key
 -/
 
-/-- `update_preserves_partial`: for every corpus file all of whose tests are run exactly once,
-if the run writes the file and the written file reads back as written (`RoundTrips`), the
+/-- `update_preserves_partial` (unchanged code): for every corpus file all of whose tests are run exactly
+once, if the run writes the file and the written file reads back as written (`RoundTrips`), the
 update leaves names, attribute text, inputs and order unchanged.
 Missing w.r.t. the full statement: skipped / other-platform / multi-language tests (genuine
-defects, witnesses below) and the round trip of the writer for this file. -/
+defects, witnesses below) and the round trip of the writer for this file (suffix, see `Roundtrip`). -/
 theorem update_preserves_partial (os : Str) (orc : Oracle) (f : Str) (cs : List Correction)
     (hne : parseFile os f ≠ [])
     (hp : ∀ e ∈ parseFile os f, RunOnce e)
-    (hrun : updateEntries orc (parseFile os f) [] = some cs)
-    (hrt : RoundTrips os cs) :
-    (parseFile os (updateFile os orc f)).map Entry.skey = (parseFile os f).map Entry.skey := by
-  have hk := updateEntries_keys orc _ [] cs hp hrun
+    (hrun : updateEntries {} orc (parseFile os f) [] = some cs)
+    (hrt : RoundTrips os [] cs) :
+    (parseFile os (updateFile {} os orc f)).map Entry.skey = (parseFile os f).map Entry.skey := by
+  have hk := updateEntries_keys {} orc _ cs hp hrun
   unfold updateFile
   split
   · next h => exact absurd h hne
   · next es hes =>
     simp only [hrun]
     unfold RoundTrips at hrt
-    rw [hrt, hk]; simp
+    simp [hrt, hk]
 
 /-! ### non-vacuity and witnesses for the dropped hypotheses -/
 
@@ -136,18 +221,22 @@ def eTwoLang : Entry :=
 
 /-- The hypotheses of `updateEntries_keys` are satisfiable, with a wrong expectation being corrected. -/
 example : RunOnce eFirst := ⟨by decide, by decide, [], by decide⟩
-example : (updateEntries okOracle [eFirst] []).map (·.map (·.output)) = some [sxSource] := by decide
+example : (updateEntries {} okOracle [eFirst] []).map (·.map (·.output)) = some [sxSource] := by decide
+
+/-- With the repairs the skipped test and the two-language test are written exactly once. -/
+example : (updateEntries { keepUnrun := true, oneCorrection := true } okOracle [eFirst, eSkip, eTwoLang] []).map (·.map (·.name))
+    = some [eFirst.name, eSkip.name, eTwoLang.name] := by decide
 
 /-- Witness (genuine defect): a `:skip` test is dropped by the update. -/
 theorem update_drops_skip :
-    (updateEntries okOracle [eFirst, eSkip] []).map (·.map (·.name)) = some [eFirst.name] := by decide
+    (updateEntries {} okOracle [eFirst, eSkip] []).map (·.map (·.name)) = some [eFirst.name] := by decide
 
 /-- Witness (genuine defect): a test for another platform is dropped by the update. -/
 theorem update_drops_other_platform :
-    (updateEntries okOracle [eFirst, eMac] []).map (·.map (·.name)) = some [eFirst.name] := by decide
+    (updateEntries {} okOracle [eFirst, eMac] []).map (·.map (·.name)) = some [eFirst.name] := by decide
 
 /-- Witness (genuine defect): a test with two `:language(..)` lines is written twice. -/
 theorem update_duplicates_per_language :
-    (updateEntries okOracle [eTwoLang] []).map (·.map (·.name)) = some [eTwoLang.name, eTwoLang.name] := by decide
+    (updateEntries {} okOracle [eTwoLang] []).map (·.map (·.name)) = some [eTwoLang.name, eTwoLang.name] := by decide
 
 end TsVerif.C20
